@@ -100,6 +100,30 @@ class NewNeedsArg(Exception):
     super().__init__()
     self.a = a
 
+class NewValidates(Exception):
+  """__new__ validates its argument; .args carries a formatted message, so rebuilding from .args raises ValueError"""
+  def __new__(cls, code):
+    int(code)
+    return super().__new__(cls)
+  def __init__(self, code):
+    super().__init__('code %s' % code)
+    self.code = code
+
+class TaskErrors(ExceptionGroup):
+  """an exception group whose .args is only the message"""
+  def __init__(self, message, excs):
+    super().__init__(message)
+    self.count = len(excs)
+
+class ApiError(Exception):
+  """subclasses must give a class keyword"""
+  def __init_subclass__(cls, status, **kw):
+    super().__init_subclass__(**kw)
+    cls.status = status
+
+class NotFound(ApiError, status=404):
+  pass
+
 class ZeroOrCode(Exception):
   """constructible with no argument or with (code, detail), but NOT from its own .args (a 3-tuple)"""
   def __new__(cls, code=None, detail=''):
@@ -122,7 +146,8 @@ class NeedsArgs(ValueError):
 '''
 USER_ARGS = {'NeedsArgs': "(7, 'boom')", 'NeedsNewArgs': "(1, 2)", 'Slotted': "([1, 2],)", 'CustomStr': "('v',)",
              'WithProperty': "(21,)", 'OsChild': "(13, 'denied')", 'KwOnly': "(reason='why')", 'ZeroOrCode': "(5, 'boom')",
-             'ClassDefault': "(5,)", 'NewNeedsArg': "(7,)"}
+             'ClassDefault': "(5,)", 'NewNeedsArg': "(7,)",
+             'NewValidates': "(5,)", 'TaskErrors': "('tasks failed', [ValueError(1), KeyError('k')])", 'NotFound': "('gone',)"}
 
 
 def public_attrs(e):
@@ -245,13 +270,36 @@ class ExcEngine(Engine):
     pub = public_attrs(original)
     args = getattr(original, 'args', ())
 
-    def build(a):
-      try:
-        return type('P', (cls,), {'__init__': lambda self, *x: None})(*a)
-      except TypeError:
+    try:
+      P_cls = type('P', (cls,), {'__init__': lambda self, *x: None})
+      subclassable = True
+    except Exception:  # pylint: disable=broad-except
+      P_cls, subclassable = None, False
+
+    outcome = {}
+
+    def build(a, tag):
+      if P_cls is None:
+        outcome[tag] = 'AOtherError'
         return None
-    from_args, from_nothing = build(args), build(())
-    bare = from_args if from_args is not None else from_nothing
+      try:
+        r = P_cls(*a)
+        outcome[tag] = 'AOk'
+        return r
+      except TypeError:
+        outcome[tag] = 'ATypeError'
+      except Exception:  # pylint: disable=broad-except
+        outcome[tag] = 'AOtherError'
+      return None
+    from_args, from_nothing = build(args, 'args'), build((), 'nothing')
+    from_base = None
+    if P_cls is not None:
+      try:
+        new = next(k.__new__ for k in cls.__mro__ if inspect.isbuiltin(k.__new__))
+        from_base = new(P_cls)
+      except Exception:  # pylint: disable=broad-except
+        from_base = None
+    bare = from_args if from_args is not None else from_nothing if from_nothing is not None else from_base
     bare_vals = {n: getattr(bare, n, '<raises>') for n in slots} if bare is not None else {}
     inst = getattr(original, '__dict__', {})
 
@@ -269,7 +317,8 @@ class ExcEngine(Engine):
         return 'ADictShadow' if (has and not self.same(cv, inst[n])) else 'ADict'
       return 'AClass'
     attrs = C.clist(['(%s, %s)' % (C.cstr(n), kind(n)) for n in sorted(pub)]) if pub else '(@nil (string * akind))'
-    return '(%s, (%s, %s), %s)' % (C.cbool(is_exc), C.cbool(from_args is not None), C.cbool(from_nothing is not None), attrs)
+    return '(%s, (%s, %s, %s, %s), %s)' % (C.cbool(is_exc), C.cbool(subclassable), outcome['args'],
+                                         outcome['nothing'], C.cbool(from_base is not None), attrs)
 
   @staticmethod
   def same(a, b):
@@ -294,7 +343,7 @@ class ExcEngine(Engine):
       same_class = isinstance(caught, cls)
       if not same_class:
         fails.append(('exception-class-lost', '%s raised, caller caught %s: %s' % (case['cls'], type(caught).__name__, str(caught)[:120])))
-        obs = T('ClassLost', type(caught).__name__)
+        obs = T('ClassLost')
       else:
         if type(caught).__name__ != cls.__name__ or type(caught).__module__ != cls.__module__:
           fails.append(('exception-name-changed', '%s.%s' % (type(caught).__module__, type(caught).__name__)))
@@ -316,7 +365,7 @@ class ExcEngine(Engine):
           obs_attrs.append([n, ok])
           if not ok:
             fails.append(('attribute-differs', '%s.%s: original %r, caught %r' % (case['cls'], n, pub[n], got)))
-        obs = T('Proxy', obs_attrs)
+        obs = T('Original') if caught is original else T('Proxy', obs_attrs)
     slots = slot_attrs(cls)
     return {'obs': obs, 'fails': fails[:4], 'nontrivial': case['depth'] >= 2 and (bool(slots) or case['user']),
             'tags': tags + ['depth%d' % case['depth']]}
